@@ -52,7 +52,7 @@ func cases(tier string) int {
 	if tier == "thorough" {
 		return 200000
 	}
-	return 2500
+	return 10000
 }
 
 func TestCheck(t *testing.T) {
